@@ -37,6 +37,10 @@ def _body(name, x, y):
     if DURING[0] is not None:
         cb, DURING[0] = DURING[0], None
         cb()
+    if getattr(type(x), 'klepto_verif_raises', False):      # an unkeyable argument for which the function raises
+        e = StubError('stub failure for an unkeyable argument')
+        LAST_EXC[0] = e
+        raise e
     if x == 7:
         # (the class of this exception is configurable: a decorator must pass on whatever the function raises,
         # also the exception types it catches itself for its own purposes - TypeError, ValueError, ...)
@@ -207,3 +211,28 @@ BadLookup = _bad_class('BadLookup', LookupError)
 BadRecursion = _bad_class('BadRecursion', RecursionError)
 BAD_BY_KIND = {'value': BadValue, 'type': BadRepr, 'attr': BadAttr, 'runtime': BadRuntime, 'lookuperr': BadLookup,
                'recursion': BadRecursion}
+
+
+def other_function(p, q=5, *r, **s):
+    """a second function with another signature, decorated with the SAME decorator object as the stub (never called)"""
+    LOG.append(('other', p, q))
+    return ('other', p, q)
+
+
+# value independent of the second parameter, whose name has more than one character (ignore='why' passed as a bare string)
+def w1(x, why=0):
+    _body('w1', x, why)
+    return _value(x, 0)
+
+
+def w2(x, why=0):
+    _body('w2', x, why)
+    return _value(x, 0)
+
+
+def w3(x, why=0):
+    _body('w3', x, why)
+    return _value(x, 0)
+
+
+WFUNCS = [w1, w2, w3]
